@@ -3,7 +3,7 @@
    forget injected at every step. *)
 From Coq Require Import ZArith List Bool Lia.
 From MV Require Import Ast Eval Scalar Machine.
-From MV.Proofs Require Import Arith Logic Prim View OpsLocal Guards Drops DrainIt FilterIt.
+From MV.Proofs Require Import Arith Logic Prim View OpsLocal Guards Drops DrainIt FilterIt Grow CapHistory Core Refine Life IntoIt.
 Import ListNotations.
 Open Scope Z_scope.
 
@@ -54,3 +54,22 @@ Proof. exact finv_vector_is_empty. Qed.
 
 Print Assumptions C05_drain_filter_creation.
 Print Assumptions C05_drain_filter_vector_is_empty_while_the_iterator_lives.
+
+(* Drop for IntoIter at ANY point of its consumption, under ANY set of panicking destructors: every
+   element it still holds is destroyed, nothing else is touched, the name is gone and the block is
+   given back with its layout -- also when a destructor panics (the length is cut to 0 first and the
+   embedded vector is dropped by the unwinding) *)
+Theorem C05_into_iter_drop_any_point :
+  forall cfg, cfg_ok cfg -> needs_drop cfg = true ->
+  forall s it b bl off p,
+  into_inv cfg s it b bl off p ->
+  NoDup (remaining bl p) -> (forall e, In e (remaining bl p) -> ledger s e = Live) ->
+  let Q := fun s' =>
+    (forall e, In e (remaining bl p) -> ledger s' e = Dropped) /\
+    only_changes s s' (remaining bl p) /\
+    nth_error (vecs s') (i_vec it) = Some None /\
+    nth_error (heap s') b = Some (kill (with_hdr bl 0 (h_cap bl) (h_align bl))) /\
+    exists evs, events s' = EvDealloc (b_size bl) (b_align bl) :: evs in
+  post (into_drop cfg it s) (fun _ s' => Q s') Q.
+Proof. exact into_drop_spec. Qed.
+Print Assumptions C05_into_iter_drop_any_point.
